@@ -11,6 +11,11 @@ AXIOMS = {
     "C14": ["FunctionalExtensionality.functional_extensionality_dep"],
     "C20": ["FunctionalExtensionality.functional_extensionality_dep"],
 }
+# theorems with their own allowlist: the binary32 (Flocq) instance of C18 needs the standard library's real numbers
+_REALS = ["ClassicalDedekindReals.sig_not_dec", "ClassicalDedekindReals.sig_forall_dec",
+          "FunctionalExtensionality.functional_extensionality_dep", "Classical_Prop.classic"]
+AXIOMS_THM = {t: _REALS for t in ("c18_ev32_mono", "c18_key32_mono", "c18_filters_sound_binary32",
+                                  "c18_close_matches_binary32", "c18_driver_ratio_eq", "c18_double_rounding_div")}
 # theorem names that must be present in Props/Cxx.v
 PINNED = {
     "C01": ["c01_myers_valid", "c01_myers_no_panic", "c01_snake_spec", "c01_lcs_valid", "c01_lcs_no_panic", "c01_patience_valid", "c01_patience_no_panic", "c01_strong_implies_spec", "c01_raw_replay", "c01_checker_reflects", "c01_raw_shift", "c01_raw_shift_slices", "c01_capture_shift"],
@@ -30,7 +35,7 @@ PINNED = {
     "C15": ["c15_unique_spec", "c15_unique_sorted", "c15_patience_anchors", "c15_lcs_len_correct"],
     "C16": ["c16_inline_not_replace", "c16_inline_not_replace_no_emph", "c16_multi_seqs_spec", "c16_orig_slices_spec", "c16_orig_slices_descr", "c16_lnl_token_clean", "c16_inline_replace_spec", "c16_inline_post_pointwise", "c16_inline_replace_spec_all", "c16_inline_replace_bytes", "c16_inline_replace_total"],
     "C17": ["c17_bytes_eqb_spec", "c17_remap_indexes_eq", "c17_remap_slice_spec", "c17_remap_slice_iter", "c17_remap_slice_empty_panics", "c17_remap_slice_empty_inside", "c17_remap_ops_reconstruct", "c17_remap_op_iter_slices"],
-    "C18": ["c18_filters_sound", "c18_ratio_le_filters", "c18_exhaustive_ranking", "c18_ranking_exists", "c18_sorted_spec", "c18_any_heap", "c18_ranking_by_ratio", "c18_filters_sound_gen", "c18_exhaustive_ranking_gen", "c18_textdiff_ratio", "c18_ratio_values", "c18_instance_Q"],
+    "C18": ["c18_filters_sound", "c18_ratio_le_filters", "c18_exhaustive_ranking", "c18_ranking_exists", "c18_sorted_spec", "c18_any_heap", "c18_ranking_by_ratio", "c18_filters_sound_gen", "c18_exhaustive_ranking_gen", "c18_textdiff_ratio", "c18_ratio_values", "c18_instance_Q", "c18_ev32_mono", "c18_key32_mono", "c18_filters_sound_binary32", "c18_close_matches_binary32", "c18_driver_ratio_eq", "c18_double_rounding_div"],
     "C19": ["c19_count_world", "c19_prefix_scan_cost", "c19_suffix_scan_cost", "c19_fwd_step_cost", "c19_bwd_step_cost", "c19_rounds_telescope", "c19_snake_round_cost", "c19_snake_cost", "c19_snake_halves", "c19_myers_work_any_world", "c19_myers_work_bound", "c19_myers_work_bound_lcs", "c19_patience_work_bound", "c19_patience_work_bound_items", "c19_patience_needs_consistent"],
     "C20": ["c20_identify_distinct_ext", "c20_identify_pattern", "c20_identify_first_seen", "c20_rgs_fresh", "c20_rgs_covers", "c20_rgs_next_bound", "c20_relabel_oracles_pointwise", "c20_relabel_identify", "c20_relabel_capture_diff", "c20_relabel_raw_trace", "c20_relabel_textdiff_ops", "c20_str_bytes_same_ops"],
 }
@@ -588,6 +593,20 @@ def run_C12(ctx):
         ctx.count("group:random-alternating")
     C.evaluate(ctx, "corpus", corpus_lines({"group"}), rel)
     C.evaluate(ctx, "group", lines, rel, nontrivial=lambda comp, kv, impl: "|" in impl or "," in impl)
+    # TextDiff::grouped_ops(n) and the hunks of TextDiff::unified_diff().context_radius(n): radii from 0 to beyond
+    # the input length, changes near the ends and in the middle
+    tl = []
+    for _ in range(tiered(ctx, 1500, 15000)):
+        m = ctx.rng.randrange(0, 30)
+        a = gen.rand_seq(ctx.rng, m, ctx.rng.choice([2, 5, 50]))
+        b = gen.edit_seq(ctx.rng, a, ctx.rng.randrange(0, 4), 50)
+        if ctx.rng.random() < 0.3 and a:
+            b = list(a)
+            b[ctx.rng.choice([0, len(b) - 1])] = 99
+        n = ctx.rng.choice([0, 1, 2, 3, 5, m // 2, m // 2 + 1, m, m + 3, 1000])
+        tl.append("group n=%d via=textdiff alg=%s old=%s new=%s" % (n, ctx.rng.choice(ALGS), gen.fmt_list(a), gen.fmt_list(b)))
+        ctx.count("group:textdiff-grouped-ops-and-hunks")
+    C.evaluate(ctx, "group-textdiff", tl, rel, nontrivial=lambda comp, kv, impl: "groups=-" not in impl)
 
 
 SPECS["C12"] = dict(
@@ -600,7 +619,7 @@ SPECS["C12"] = dict(
              "Equals whole and <= 2n, groups separated exactly by Equals > 2n), GroupSpec determines the result uniquely, "
              "every change appears once and in order (G2), no Equal-only group (G1), none without changes (G0). "
              "The extracted check_groups (= equality with group_ref, reflection proved) is run on the real group_diff_ops "
-             "and Capture::into_grouped_ops outputs.",
+             "Capture::into_grouped_ops, TextDiff::grouped_ops and unified-diff hunk outputs.",
         note="Trusted: Coq kernel; extraction (ExtrOcamlBasic); OCaml driver and Rust harness glue. The tie of the model to "
              "src/common.rs is differential testing over the exhaustive boundary-length world and random lists.",
         technique="Coq proof (model = declarative reference, relational spec with uniqueness) + correspondence + verified checker on implementation output",
@@ -609,7 +628,8 @@ SPECS["C12"] = dict(
     run=run_C12,
     generators="group component: every alternating op list with up to 4/5 runs, starting with either kind and at cursor (0,0), (3,0) or (2,7), equal-run "
                "lengths from {1,n-1,n,n+1,2n-1,2n,2n+1,2n+2}, n in 0..3; random alternating lists with up to 11 runs, "
-               "n in 0..5, through group_diff_ops and Capture::into_grouped_ops",
+               "n in 0..5, through group_diff_ops and Capture::into_grouped_ops; TextDiff::grouped_ops and the hunk ops of "
+               "TextDiff::unified_diff() for radii from 0 to beyond the input length",
 )
 
 
@@ -1171,6 +1191,13 @@ def run_C20(ctx):
         r = gen.rand_subranges(ctx.rng, a, b)
         lines.append("repeat alg=%s or=%d:%d nr=%d:%d reps=5 old=%s new=%s" % (ctx.rng.choice(ALGS), r[0], r[1], r[2], r[3], gen.fmt_list(a), gen.fmt_list(b)))
         ctx.count("repeat:random (x20 executions in 4 threads, 4 relabellings)")
+    # full ranges just above 100 items (size switches of the slice entry points), small and large alphabets
+    for _ in range(tiered(ctx, 60, 600)):
+        n = ctx.rng.choice([101, 120, 160])
+        a = gen.rand_seq(ctx.rng, n, ctx.rng.choice([3, 40, 1000]))
+        b = gen.edit_seq(ctx.rng, a, ctx.rng.randrange(1, 12), 1000)
+        lines.append("repeat alg=%s or=0:%d nr=0:%d reps=2 old=%s new=%s" % (ctx.rng.choice(ALGS), len(a), len(b), gen.fmt_list(a), gen.fmt_list(b)))
+        ctx.count("repeat:full-range-above-100-items")
     C.evaluate(ctx, "repeat", lines, rel)
     big = []
     for n in tiered(ctx, [700, 1100], [300, 700, 1100, 1600]):
@@ -1203,7 +1230,7 @@ def run_C20(ctx):
 SPECS["C20"] = dict(
     level="proof",
     manifest=dict(
-        text="Machine-checked theorems (Props/C20.v): the model's results depend on the items only through the three comparison oracles; relabelling by any injective function leaves capture_diff, the raw trace, IdentifyDistinct and text diffs unchanged (uses functional_extensionality_dep; the pointwise oracle lemmas are axiom-free); equal token lists give equal text diffs (with C06: str = bytes). That the real code agrees with this one function on every execution is exercised, not proved: 12-20 executions in 4 threads with fresh hasher seeds under 4 relabellings, incl. block swaps of >1024 unique items.",
+        text="Machine-checked theorems (Props/C20.v): the model's results depend on the items only through the three comparison oracles; relabelling by any injective function leaves capture_diff, the raw trace, IdentifyDistinct and text diffs unchanged (uses functional_extensionality_dep; the pointwise oracle lemmas are axiom-free); equal token lists give equal text diffs (with C06: str = bytes). That the real code agrees with this one function on every execution is exercised, not proved: 12-20 executions in 4 threads with fresh hasher seeds under 4 relabellings and with item types whose legal Hash is coarse or constant, through capture_diff, capture_diff_slices and utils::diff_slices, incl. full ranges just above 100 items and block swaps of >1024 unique items.",
         note='Trusted: Coq 8.16.1 kernel; extraction with ExtrOcamlBasic only; OCaml driver and Rust harness glue; the tie of the hand-written model to /repo is the correspondence check (differential testing on the generated inputs, rebuilt from the working tree every run), not a proof about the Rust source. usize wrap-around is not modelled.',
         technique='Coq proof of relabelling invariance + repeated/threaded/relabelled execution of the real code against the model',
     ),
@@ -1343,9 +1370,9 @@ def run_C18(ctx):
 SPECS["C18"] = dict(
     level=("proof" if __import__("os").path.exists(__import__("os").path.join(C.VERIF, "coq", "Props", "C18.v")) else "translation_validation"),
     manifest=dict(
-        text="K-level now, theorems when Proofs/Close.v is present: the extracted lcs_len recomputes every candidate's character-level ratio bit-for-bit (f32(2L/(N+M))) and the result is compared with the exhaustive ranking (key = trunc(ratio*2^32) saturated, ties lexicographic) on words with mixed-width characters, duplicates, empty strings, n in {0,1,3,100} and cutoffs at, just below and just above every ratio value. Model-level theorems (filters never discard a qualifying candidate for any monotone rounding; result = first n of the sorted qualifying candidates) are in Props/C18.v when present.",
+        text="Machine-checked theorems (Props/C18.v): for ANY monotone rounding of the exact ratio and any monotone heap key, the two pre-filters never discard a candidate that meets the cutoff (their rational bounds dominate the ratio) and the result is the first n of the qualifying candidates sorted by decreasing key, ties lexicographic, whatever the heap does (closed under the global context); ordered by decreasing RATIO under the premise that the key separates the occurring ratios, which fails only below 2^-9 (known finding F9). The binary32 instance is proved with Flocq: the expression as the crate writes it, rounding after every operation, is monotone, and so is the u32 key (c18_*_binary32; these rest on the standard library real-number axioms, named in the evidence). The run-time check recomputes every candidate's ratio with the extracted lcs_len as binary32(binary64(2L)/binary64(N+M)), proved equal to the crate's expression for lengths below 2^24 (c18_driver_ratio_eq, double rounding), and compares the result with the exhaustive ranking on words with mixed-width characters, duplicates, empty strings, n in {0,1,3,100} and cutoffs at, just below and just above every ratio value.",
         note='Trusted: Coq 8.16.1 kernel; extraction with ExtrOcamlBasic only; OCaml driver and Rust harness glue; the tie of the hand-written model to /repo is the correspondence check (differential testing on the generated inputs, rebuilt from the working tree every run), not a proof about the Rust source. usize wrap-around is not modelled.',
-        technique='verified-optimum checker + exhaustive-ranking oracle on implementation output; Coq proof over an abstract monotone rounding',
+        technique='Coq proof over an abstract monotone rounding + Flocq binary32 instance + verified-optimum checker and exhaustive-ranking oracle on implementation output',
     ),
     relevant=lambda comp, kv: {"no_panic", "close_matches_spec", "close_matches_spec@keytie", "close_ratio_is_2L"},
     run=run_C18,
